@@ -30,7 +30,7 @@ without reference to what the generators draw). Wave 4 ({waves.get('4',0)} chang
 purpose and is marked as such: those agents were additionally told, in prose, which
 configurations, shapes, sizes and fault kinds the generators draw and were asked for changes such
 a checker would still miss - they are adversarial to the machinery, not independent of it. Wave 5
-({waves.get('5',0)} changes) and waves 6 to 16 ({waves.get('6',0)}+{waves.get('7',0)}+{waves.get('8',0)}+{waves.get('9',0)}+{waves.get('10',0)}+{waves.get('11',0)}+{waves.get('12',0)}+{waves.get('13',0)}+{waves.get('14',0)}+{waves.get('15',0)}+{waves.get('16',0)} changes) went back to the property text alone (plus the list of earlier
+({waves.get('5',0)} changes) and waves 6 to 17 ({waves.get('6',0)}+{waves.get('7',0)}+{waves.get('8',0)}+{waves.get('9',0)}+{waves.get('10',0)}+{waves.get('11',0)}+{waves.get('12',0)}+{waves.get('13',0)}+{waves.get('14',0)}+{waves.get('15',0)}+{waves.get('16',0)}+{waves.get('17',0)} changes) went back to the property text alone (plus the list of earlier
 changes to avoid).
 "yes" = caught by the quick tier of the machinery as it was when the change arrived; "after
 strengthening" = first missed, then caught after the generator or oracle was extended (the last
@@ -90,7 +90,9 @@ strings-only rows in C19, symlinked files in C13); wave 16 value and history cla
 that open with bars without a quote, a zero close on the latest bar of a backtest, a default
 start date with a time of day, tickers that differ only in case, later calls of 800-1500 values,
 the same decorator twice, a moving average replaced after construction, pointer elements in
-Filter, periods kept in a slice, a factory-built Tiingo repository).
+Filter, periods kept in a slice, a factory-built Tiingo repository); wave 17 four more value and
+shape classes (time values held in a zone other than UTC, an untagged time field after a tagged
+one, operands copied by one Duplicate, SMMA periods in either order).
 
 | seeded change | wave | what it does | needs | caught at once? | check and verdict |
 |---|---|---|---|---|---|
